@@ -157,6 +157,17 @@ func checkC19(c *Ctx) {
 				}
 			}
 		}
+		if chance(r, 20) {
+			// a device that loads and resolves but cannot be applied: its node names no type
+			// and the host path does not exist (injection fails at apply time)
+			for i, d := range p.Phys {
+				if p.Exists[i] {
+					must(os.WriteFile(filepath.Join(d, "zz-apply-fails.json"), []byte(`{"cdiVersion":"0.6.0","kind":"failing.org/dev","devices":[{"name":"gone","containerEdits":{"deviceNodes":[{"path":"/dev/verif-no-such-host-node"}]}}]}`), 0o644))
+					c.Count("populations_with_a_device_that_fails_at_apply_time", 1)
+					break
+				}
+			}
+		}
 		if chance(r, 15) {
 			// a directory listed twice with another one in between, and a device both define
 			var ex []int
